@@ -41,6 +41,8 @@ def gen_ops(ctx):
                 n = 1024; step = max(1, (size - 1) // n); x0 = lo + r.below(step)
                 while x0 + (n - 1) * step > hi: n -= 1
                 ops.append("inv %s %d %d %d" % (t, x0, n, step))
+    if th:
+        ops += ["mulall u16", "mulall i16"]      # all 2^32 pairs, Spec re-implemented in the harness (see main.cpp)
     # float32 channels: boundary values and random values of [0,1]
     one = f32bits(1.0)
     fb = [0, 1, 2, 0x00800000, 0x007fffff, f32bits(0.5), f32bits(0.25), one - 1, one - 2, one, f32bits(1 / 3), f32bits(1 / 255), f32bits(254 / 255.0)]
@@ -55,7 +57,7 @@ def nontrivial(op):
     w = op.split()
     if w[0] == "mulrc":
         lo, hi = INT_TYPES[w[1]]; return lo < int(w[2]) < hi     # rows other than the identity / annihilator rows
-    if w[0] == "inv": return True
+    if w[0] in ("inv", "mulall"): return True
     if w[0] == "mulf": return int(w[1]) not in (0, 0x3f800000) and int(w[2]) not in (0, 0x3f800000)
     return True
 
@@ -75,8 +77,15 @@ def run(ctx, ops=None):
     else:
         ops = ops or gen_ops(ctx)
         impl, model = vlib.correspond(ctx, binary, "drv_C07", ops)
+        # a pair reported by the C++-side exhaustive sweep is re-judged by the Lean judge (the authority)
+        extra = []
+        for o, r in zip(ops, impl):
+            if o.startswith("mulall") and "first=" in r and not r.endswith("first=none"):
+                a, b = r.split("first=")[1].split(",")
+                extra.append("mulrc %s %s %s 1 1" % (o.split()[1], a, b)); extra.append("mulrc %s %s %s 1 1" % (o.split()[1], b, a))
+        if extra: vlib.correspond(ctx, binary, "drv_C07", extra, label="sweep-witness")
         distinct = len({o for o in ops if nontrivial(o)})
-        pairs = sum(int(o.split()[4]) for o in ops if o.startswith("mulrc")) + sum(int(o.split()[3]) for o in ops if o.startswith("inv "))
+        pairs = sum(int(o.split()[4]) for o in ops if o.startswith("mulrc")) + 2**32 * len([o for o in ops if o.startswith("mulall")]) + sum(int(o.split()[3]) for o in ops if o.startswith("inv "))
         ctx.cov["values_judged"] = pairs
         for i in (0, len(ops) // 3, 2 * len(ops) // 3, len(ops) - 1):
             samples.append({"op": ops[i][:120], "impl": impl[i][:160], "model": model[i][:160]})
